@@ -13,7 +13,7 @@
 //!    the other (producer) threads run, so the harness controls the interleaving at channel-operation
 //!    granularity.
 //! No synchronisation: verification builds are single-threaded.
-use std::cell::{Cell, UnsafeCell};
+use std::cell::UnsafeCell;
 use std::fmt;
 use std::sync::Arc;
 use std::time::Duration;
@@ -32,21 +32,43 @@ fn yield_now(blocking: bool) {
     }
 }
 
+/// Control block of one channel. Kept in a `static` table (not in the `Arc`) on purpose: CBMC propagates
+/// constants through statics but not through heap objects, and everything that decides control flow in the code
+/// under test (full / empty / disconnected) is in here.
+#[derive(Clone, Copy)]
+struct Ctrl {
+    head: usize,
+    len: usize,
+    cap: usize,
+    senders: usize,
+    receivers: usize,
+    /// zero-capacity only: the receiver is parked in `recv`
+    waiting: bool,
+}
+pub const MAX_CHANNELS: usize = 4;
+static mut CTRL: [Ctrl; MAX_CHANNELS] =
+    [Ctrl { head: 0, len: 0, cap: 0, senders: 0, receivers: 0, waiting: false }; MAX_CHANNELS];
+static mut NEXT_ID: usize = 0;
+
+#[allow(static_mut_refs)]
+fn ctrl(id: usize) -> &'static mut Ctrl {
+    unsafe { &mut CTRL[id] }
+}
+
 struct Inner<T> {
     buf: UnsafeCell<[Option<T>; CAP_MAX]>,
-    head: Cell<usize>,
-    len: Cell<usize>,
-    cap: usize,
-    senders: Cell<usize>,
-    receivers: Cell<usize>,
-    /// zero-capacity only: the receiver is parked in `recv`
-    waiting: Cell<bool>,
 }
 unsafe impl<T: Send> Sync for Inner<T> {}
 unsafe impl<T: Send> Send for Inner<T> {}
 
-pub struct Sender<T>(Arc<Inner<T>>);
-pub struct Receiver<T>(Arc<Inner<T>>);
+pub struct Sender<T> {
+    id: usize,
+    inner: Arc<Inner<T>>,
+}
+pub struct Receiver<T> {
+    id: usize,
+    inner: Arc<Inner<T>>,
+}
 
 #[derive(Clone, Copy, PartialEq, Eq)]
 pub struct SendError<T>(pub T);
@@ -115,101 +137,103 @@ impl<T> SendError<T> {
 
 pub fn bounded<T>(cap: usize) -> (Sender<T>, Receiver<T>) {
     assert!(cap <= CAP_MAX, "verif shim (unsupported): capacity above CAP_MAX");
-    let i = Arc::new(Inner {
-        buf: UnsafeCell::new([None, None]),
-        head: Cell::new(0),
-        len: Cell::new(0),
-        cap,
-        senders: Cell::new(1),
-        receivers: Cell::new(1),
-        waiting: Cell::new(false),
-    });
-    (Sender(i.clone()), Receiver(i))
+    #[allow(static_mut_refs)]
+    let id = unsafe {
+        let id = NEXT_ID;
+        NEXT_ID += 1;
+        id
+    };
+    assert!(id < MAX_CHANNELS, "verif shim (unsupported): more than MAX_CHANNELS channels");
+    *ctrl(id) = Ctrl { head: 0, len: 0, cap, senders: 1, receivers: 1, waiting: false };
+    let inner = Arc::new(Inner { buf: UnsafeCell::new([None, None]) });
+    (Sender { id, inner: inner.clone() }, Receiver { id, inner })
 }
 
-impl<T> Inner<T> {
-    fn room(&self) -> bool {
-        if self.cap == 0 {
-            // rendezvous: hand the message over iff the receiver is parked and nothing was handed over yet
-            self.waiting.get() && self.len.get() == 0
-        } else {
-            self.len.get() < self.cap
-        }
+fn room(c: &Ctrl) -> bool {
+    if c.cap == 0 {
+        // rendezvous: hand the message over iff the receiver is parked and nothing was handed over yet
+        c.waiting && c.len == 0
+    } else {
+        c.len < c.cap
     }
-    fn push(&self, v: T) -> Result<(), T> {
-        if !self.room() {
-            return Err(v);
-        }
-        let idx = (self.head.get() + self.len.get()) % CAP_MAX;
-        unsafe {
-            (*self.buf.get())[idx] = Some(v);
-        }
-        self.len.set(self.len.get() + 1);
-        Ok(())
+}
+
+fn push<T>(id: usize, inner: &Inner<T>, v: T) -> Result<(), T> {
+    let c = ctrl(id);
+    if !room(c) {
+        return Err(v);
     }
-    fn pop(&self) -> Option<T> {
-        if self.len.get() == 0 {
-            return None;
-        }
-        let idx = self.head.get();
-        let v = unsafe { (*self.buf.get())[idx].take() };
-        self.head.set((idx + 1) % CAP_MAX);
-        self.len.set(self.len.get() - 1);
-        v
+    let idx = (c.head + c.len) % CAP_MAX;
+    unsafe {
+        (*inner.buf.get())[idx] = Some(v);
     }
+    c.len += 1;
+    Ok(())
+}
+
+fn pop<T>(id: usize, inner: &Inner<T>) -> Option<T> {
+    let c = ctrl(id);
+    if c.len == 0 {
+        return None;
+    }
+    let idx = c.head;
+    let v = unsafe { (*inner.buf.get())[idx].take() };
+    c.head = (idx + 1) % CAP_MAX;
+    c.len -= 1;
+    v
 }
 
 impl<T> Sender<T> {
     pub fn try_send(&self, v: T) -> Result<(), TrySendError<T>> {
-        if self.0.receivers.get() == 0 {
+        if ctrl(self.id).receivers == 0 {
             return Err(TrySendError::Disconnected(v));
         }
-        self.0.push(v).map_err(TrySendError::Full)
+        push(self.id, &self.inner, v).map_err(TrySendError::Full)
     }
     /// Blocking send: the scheduler must only run a sender that would not block.
     pub fn send(&self, v: T) -> Result<(), SendError<T>> {
-        if self.0.receivers.get() == 0 {
+        if ctrl(self.id).receivers == 0 {
             return Err(SendError(v));
         }
-        match self.0.push(v) {
+        match push(self.id, &self.inner, v) {
             Ok(()) => Ok(()),
             Err(_) => panic!("verif shim (unsupported schedule): blocking send scheduled while full"),
         }
     }
     /// The time-out elapses iff there is no room now (the harness decides when the receiver runs).
     pub fn send_timeout(&self, v: T, _: Duration) -> Result<(), SendTimeoutError<T>> {
-        if self.0.receivers.get() == 0 {
+        if ctrl(self.id).receivers == 0 {
             return Err(SendTimeoutError::Disconnected(v));
         }
-        self.0.push(v).map_err(SendTimeoutError::Timeout)
+        push(self.id, &self.inner, v).map_err(SendTimeoutError::Timeout)
     }
     pub fn len(&self) -> usize {
-        self.0.len.get()
+        ctrl(self.id).len
     }
     pub fn is_empty(&self) -> bool {
-        self.0.len.get() == 0
+        ctrl(self.id).len == 0
     }
     pub fn is_full(&self) -> bool {
-        self.0.len.get() >= self.0.cap
+        ctrl(self.id).len >= ctrl(self.id).cap
     }
     pub fn capacity(&self) -> Option<usize> {
-        Some(self.0.cap)
+        Some(ctrl(self.id).cap)
     }
 }
 impl<T> Clone for Sender<T> {
     fn clone(&self) -> Self {
-        self.0.senders.set(self.0.senders.get() + 1);
-        Sender(self.0.clone())
+        ctrl(self.id).senders += 1;
+        Sender { id: self.id, inner: self.inner.clone() }
     }
 }
 impl<T> Drop for Sender<T> {
     fn drop(&mut self) {
-        self.0.senders.set(self.0.senders.get() - 1);
+        ctrl(self.id).senders -= 1;
     }
 }
 impl<T> Drop for Receiver<T> {
     fn drop(&mut self) {
-        self.0.receivers.set(self.0.receivers.get() - 1);
+        ctrl(self.id).receivers -= 1;
     }
 }
 impl<T> fmt::Debug for Sender<T> {
@@ -226,10 +250,10 @@ impl<T> fmt::Debug for Receiver<T> {
 impl<T> Receiver<T> {
     pub fn try_recv(&self) -> Result<T, TryRecvError> {
         yield_now(false);
-        match self.0.pop() {
+        match pop(self.id, &self.inner) {
             Some(v) => Ok(v),
             None => {
-                if self.0.senders.get() == 0 {
+                if ctrl(self.id).senders == 0 {
                     Err(TryRecvError::Disconnected)
                 } else {
                     Err(TryRecvError::Empty)
@@ -239,13 +263,13 @@ impl<T> Receiver<T> {
     }
     /// Blocking recv: the scheduler (the yield callback) must have made it non-blocking.
     pub fn recv(&self) -> Result<T, RecvError> {
-        self.0.waiting.set(true);
+        ctrl(self.id).waiting = true;
         yield_now(true);
-        self.0.waiting.set(false);
-        match self.0.pop() {
+        ctrl(self.id).waiting = false;
+        match pop(self.id, &self.inner) {
             Some(v) => Ok(v),
             None => {
-                if self.0.senders.get() == 0 {
+                if ctrl(self.id).senders == 0 {
                     Err(RecvError)
                 } else {
                     panic!("verif shim (unsupported schedule): blocking recv scheduled while empty")
@@ -254,12 +278,22 @@ impl<T> Receiver<T> {
         }
     }
     pub fn len(&self) -> usize {
-        self.0.len.get()
+        ctrl(self.id).len
     }
     pub fn is_empty(&self) -> bool {
-        self.0.len.get() == 0
+        ctrl(self.id).len == 0
     }
     pub fn capacity(&self) -> Option<usize> {
-        Some(self.0.cap)
+        Some(ctrl(self.id).cap)
+    }
+}
+
+/// Verification harnesses that run several independent scenarios in one process call this between scenarios,
+/// after every `Sender` / `Receiver` of the previous scenario has been dropped or forgotten.
+#[allow(static_mut_refs)]
+pub fn __verif_reset() {
+    unsafe {
+        NEXT_ID = 0;
+        YIELD = None;
     }
 }
